@@ -2645,8 +2645,10 @@ def unlock_config():
   """
   config_was_locked = config_is_locked()
   _set_config_is_locked(False)
-  yield
-  _set_config_is_locked(config_was_locked)
+  try:
+    yield
+  finally:
+    _set_config_is_locked(config_was_locked)
 
 
 def enter_interactive_mode():
